@@ -160,6 +160,7 @@ static void harness_fail(const char *what) { vf_incon("harness: %s", what); vf_f
 static void mkobj(pstm_int *o, const val_t *v, int extra)
 {
     int alloc = v->used + extra; if (alloc < 1) alloc = 1;
+    if (alloc > PSTM_MAX_SIZE && v->used <= PSTM_MAX_SIZE) alloc = PSTM_MAX_SIZE;
     if (pstm_init_size(NULL, o, alloc) != PSTM_OKAY) harness_fail("pstm_init_size");
     memcpy(o->dp, v->d, 8 * (size_t) v->used);
     o->used = v->used; o->sign = v->used ? v->sign : PSTM_ZPOS;
@@ -175,7 +176,7 @@ static void mkstale(T *t, pstm_int *o, int mode, int hint)
     case ST_FRESH: v->used = 0; extra = 1 + (int) (snext(t) % 3); break;
     case ST_TIGHT: v->used = 1; v->d[0] = vnext(t) | 1; v->sign = (int) (snext(t) & 1); break;
     default:
-        n = 1 + (int) (snext(t) % (unsigned) (2 * hint + 3)); if (n > MAXDIG - 4) n = MAXDIG - 4;
+        n = 1 + (int) (snext(t) % (unsigned) (2 * hint + 3)); if (n > 150) n = 150;
         for (i = 0; i < n; i++) v->d[i] = vnext(t) | 1;
         v->used = n; v->sign = mode == ST_NEG ? PSTM_NEG : PSTM_ZPOS; extra = (int) (snext(t) % 3);
     }
@@ -213,14 +214,21 @@ static void report(T *t, const char *cls, const char *what, const mpz_t got, con
     free(ha); free(hb); free(hc); free(hg); free(he);
 }
 
-/* invariants + value of one result object. returns 0 when fine */
-static int check_obj(T *t, const char *what, const pstm_int *o, const mpz_t exp, int magnitude_only)
+/* structural invariants of a result object; returns 0 when fine, 2 when the digits cannot be read */
+static int check_inv(T *t, const char *what, const pstm_int *o, const mpz_t exp)
 {
     int bad = 0, i;
-    if (o->dp == NULL || o->used > o->alloc) { report(t, "invariant-used-gt-alloc", what, NULL, exp); return 1; }
+    if (o->dp == NULL || o->used > o->alloc) { report(t, "invariant-used-gt-alloc", what, NULL, exp); return 2; }
     if (o->used > 0 && o->dp[o->used - 1] == 0) { obj_to_mpz(ZG, o); report(t, "invariant-unclamped", what, ZG, exp); bad = 1; }
     if (o->used == 0 && o->sign != PSTM_ZPOS) { obj_to_mpz(ZG, o); report(t, "invariant-negative-zero", what, ZG, exp); bad = 1; }
     for (i = o->used; i < o->alloc; i++) if (o->dp[i]) { vf_statf(1, "soft_dirty_high_%s", t->fn); break; }
+    return bad;
+}
+/* invariants + value of one result object. returns 0 when fine */
+static int check_obj(T *t, const char *what, const pstm_int *o, const mpz_t exp, int magnitude_only)
+{
+    int bad = check_inv(t, what, o, exp);
+    if (bad == 2) return 1;
     obj_to_mpz(ZG, o);
     if (mpz_cmpabs(ZG, exp) != 0) { report(t, "wrong-value", what, ZG, exp); return 1; }
     if (!magnitude_only && mpz_sgn(ZG) != mpz_sgn(exp)) { report(t, "wrong-sign", what, ZG, exp); return 1; }
@@ -628,13 +636,16 @@ static void op_exptmod(T *t)
     case 3: mpz_sub_ui(ZA, ZC, 1); break;
     case 4: { val_t *g = &t->va; gen_val(t, g, n + 1 + (int) (snext(t) % 3), K_DENSE, 0); val_to_mpz(ZA, g); break; }   /* more digits than p */
     case 5: { val_t *g = &t->va; gen_val(t, g, 1 + (int) (snext(t) % (unsigned) n), pick_kind(t), 0); val_to_mpz(ZA, g); break; } /* shorter */
+    case 6: mpz_set(ZA, ZC); break;                                                                       /* g == p (psRsaCrypt admits input == N) */
+    case 7: { val_t *g = &t->va; gen_val(t, g, n, K_DENSE, 0); val_to_mpz(ZA, g); mpz_set_ui(ZT, 1); mpz_mul_2exp(ZT, ZT, 64UL * n); mpz_sub(ZT, ZT, ZC);
+              mpz_mod(ZA, ZA, ZT); mpz_add(ZA, ZA, ZC); break; }                                           /* p <= g < 2^bits: same digit count, not reduced */
     default: { val_t *g = &t->va; gen_val(t, g, n, K_DENSE, 0); val_to_mpz(ZA, g); mpz_mod(ZA, ZA, ZC); break; }
     }
     mpz_to_val(&t->va, ZA, K_DENSE); t->ka = gk;
     t->alias = (snext(t) % 3 == 0) ? AL_CA : AL_NONE;
     t->stale = (int) (snext(t) & 3);
     /* the stale output may be shorter or longer than p; callers allocate 2*|p|+1 */
-    mkobj(&t->oa, &t->va, (t->alias == AL_CA && (snext(t) & 1)) ? 2 * n + 1 : pick_extra(t)); t->has_a = 1; t->pa = &t->oa;
+    mkobj(&t->oa, &t->va, (t->alias == AL_CA && (snext(t) & 1) && t->va.used < 2 * n + 1) ? 2 * n + 1 - t->va.used : pick_extra(t)); t->has_a = 1; t->pa = &t->oa;
     mkobj(&t->ob, &t->vb, pick_extra(t)); t->has_b = 1; t->pb = &t->ob;
     mkobj(&op, vp, pick_extra(t));
     if (t->alias == AL_CA) t->pc = t->pa; else { mkstale(t, &t->oc, t->stale, n); t->has_c = 1; t->pc = &t->oc; }
@@ -677,12 +688,12 @@ static void op_invmod(T *t)
     if (called(t, pstm_invmod(NULL, t->pa, t->pb, t->pc))) {
         if (!have_inv) { if (t->pc->used <= t->pc->alloc) obj_to_mpz(ZG, t->pc); report(t, "success-without-inverse", "result", ZG, NULL); }
         else if (strict) { if (!check_obj(t, "result", t->pc, ZE, 0)) sample(t, ZE); }
-        else {
-            mpz_set_ui(ZE2, 0);
-            if (!check_obj(t, "result", t->pc, ZE2, 1)) { /* zero can never be an inverse for b > 1 */ report(t, "wrong-value", "result is zero", ZE2, ZE); }
-            else {
-                t->nbad--; vf_stat("violations_total", -1); /* undone below: the compare against 0 was only used to read the object */
-            }
+        else if (check_inv(t, "result", t->pc, ZE) != 2) {
+            /* outside the reduced range only a*c == 1 (mod b) is demanded */
+            obj_to_mpz(ZG, t->pc);
+            mpz_mul(ZT, ZG, ZA); mpz_sub_ui(ZT, ZT, 1); mpz_mod(ZT, ZT, ZB);
+            if (mpz_sgn(ZT) != 0) { mpz_set(ZT2, ZG); report(t, "wrong-value", "result (not an inverse)", ZT2, ZE); }
+            else { if (mpz_cmp(ZG, ZE) != 0) vf_stat("soft_invmod_noncanonical", 1); sample(t, ZE); }
         }
         inputs_unchanged(t);
     }
